@@ -69,6 +69,15 @@ class Gen:
             return var(name)
         return var(r.choice(SCALARS + LISTS))
 
+    @staticmethod
+    def kind_of(e, scope):
+        """ids have different lengths in the model and in the code: never iterate over them"""
+        if "var" in e:
+            for name, kind in reversed(scope):
+                if name == e["var"][0]:
+                    return "id" if kind == "id" else "str"
+        return "str"
+
     def out(self, scope, st):
         r = self.r
         if st.get("in_for") and r.random() < self.p["p_forloop_print"]:
@@ -124,7 +133,8 @@ class Gen:
             return {"t": "for", "x": x, "e": e, "body": self.body(depth - 1, scope + [(x, "str")], st2)}
         if kind == "with":
             x = self.bindname()
-            return {"t": "with", "x": x, "e": self.expr(scope), "body": self.body(depth - 1, scope + [(x, "str")], st)}
+            e = self.expr(scope)
+            return {"t": "with", "x": x, "e": e, "body": self.body(depth - 1, scope + [(x, self.kind_of(e, scope))], st)}
         if kind == "elem":
             self.feat("elem")
             return {"t": "elem", "tag": r.choice(TAGS), "body": self.body(depth - 1, scope, st)}
@@ -219,7 +229,7 @@ class Gen:
                         e = lit(nm)
                         node_name = var(x)
                     f = {"t": "fill", "name": node_name, "data": data, "dflt": default,
-                         "body": self.body(depth, scope + [(x, "str")], fst)}
+                         "body": self.body(depth, scope + [(x, self.kind_of(e, scope))], fst)}
                     out.append({"t": "with", "x": x, "e": e, "body": [f]})
                 elif kind < 0.7:
                     self.feat("fill_in_if")
@@ -407,16 +417,43 @@ class UserFault3(Exception):
     pass
 
 
+class UserFault1(KeyError):
+    """a KeyError whose first argument is not a string"""
+
+
 def make_fault(c):
     if c == 0:
         return UserFault0("boom")
     if c == 1:
-        return KeyError(5)
+        return UserFault1(5)
     if c == 2:
         return OSError(2, "x")
     if c == 3:
         return UserFault3("line one\nline two")
     return ValueError("m")
+
+
+class IdBox:
+    """Component.id as an opaque value: prints, is truthy, iterates over nothing (ids have different
+    spellings in the model and in the code, so templates must not look inside them)"""
+
+    def __init__(self, rid):
+        self.rid = rid
+
+    def __str__(self):
+        return "ID" + self.rid + "Z"
+
+    def __repr__(self):
+        return "?"
+
+    def __bool__(self):
+        return True
+
+    def __len__(self):
+        return 0
+
+    def __iter__(self):
+        return iter(())
 
 
 class Diverged(Exception):
@@ -529,7 +566,7 @@ class Built:
                     rec.tick(["inject", self.id, s["inject"]])
                     out[name] = self.inject(s["inject"], s.get("dflt"))
                 else:
-                    out[name] = "ID" + self.id + "Z"
+                    out[name] = IdBox(self.id)
             return out
 
         def on_render_before(self, context, template):
@@ -562,6 +599,8 @@ def err_enum(e):
         return "User:0"
     if isinstance(e, UserFault3):
         return "User:3"
+    if isinstance(e, UserFault1):
+        return "User:1"
     name = type(e).__name__
     if isinstance(e, core.Hang):
         return "HANG"
